@@ -424,3 +424,104 @@ contract(SCH + "._Enc", modifies_ghost=["rng_n", "sample0"], params=dict(self=SC
                     "K2 == prf('sha1', self.config.param_lambda, K, b'\\x02' + keyword)",
                     ])},     # (A and the free list are not touched by loop 3: what loop 2 established about them is still known)
          no_runtime=True, props=["C01", "C02", "C05"])
+
+# ---- Search: given Repr (dictionary part + array part over the same sampled arrangement) and the token of gq, the result is DB[gq] --------
+kwpos = specfn("kwpos", [DBT, TBytes], TInt, macro=True, doc="insertion position of keyword w in the database (B4)")
+kwpos.define = lambda DB, w: _kpD(DB, w)
+x_, wd_ = z3.Ints("pp_x pp_wd")
+lemma("pp_b2i_zeros", [k_], b2i(zeros(k_)) == 0, patterns=None, induct=("int", k_), inst=[[k_ - 1]], no_auto=True,
+      unfold_only=["b2i", "zeros"], uses=["zeros_len", "zeros_add"], use_inst=[("zeros_add", [k_ - 1, z3.IntVal(1)])], depth=3)
+lemma("i2b_nz", [x_, wd_], Imp(And(1 <= x_, wd_ >= 0, x_ < pow2(8 * wd_)), i2b(x_, wd_) != zeros(wd_)), patterns=None,
+      uses=["b2i_i2b", "pp_b2i_zeros"], use_inst=[("b2i_i2b", [x_, wd_]), ("pp_b2i_zeros", [wd_])])
+ids2_, ys2_ = z3.Consts("pp_ids pp_ys2", BLS)
+lemma("nz_frame", [ids2_, ys2_, k_], Imp(k_ <= Len(ids2_), nz_upto(z3.Concat(ids2_, ys2_), k_) == nz_upto(ids2_, k_)), patterns=None,
+      induct=("int", k_), inst=[[ids2_, ys2_, k_ - 1]])
+alen_ = z3.Int("pp_alen")
+lemma("ptrl_nz", [S_, top_, k_, isz_, alen_],
+      Imp(And(is_sample(S_, 1, alen_), alen_ - 1 < pow2(8 * isz_), isz_ >= 0, top_ < Len(S_), top_ - (k_ - 1) >= 0),
+          nz_upto(ptrl(S_, top_, k_, isz_), k_)),
+      patterns=None, induct=("int", k_), inst=[[S_, top_, k_ - 1, isz_, alen_]],
+      uses=["ptrl_len", "i2b_len", "nz_frame", "i2b_nz", "R1_sample_nth"],
+      use_inst=[("nz_frame", [ptrl(S_, top_, k_ - 1, isz_), z3.Unit(i2b(S_[top_ - (k_ - 1)], isz_)), k_ - 1]),
+                ("i2b_nz", [S_[top_ - (k_ - 1)], isz_]), ("R1_sample_nth", [S_, z3.IntVal(1), alen_, top_ - (k_ - 1)])])
+lemma("ptrl_nth", [S_, top_, k_, isz_, i_], Imp(And(0 <= i_, i_ < k_), ptrl(S_, top_, k_, isz_)[i_] == i2b(S_[top_ - i_], isz_)),
+      patterns=None, induct=("int", k_), inst=[[S_, top_, k_ - 1, isz_, i_]], uses=["ptrl_len"])
+
+from contracts.toolkit_bytes import blk, mn, pad
+cap2_, s2_, t2_ = z3.Ints("pp_cap pp_s pp_t")
+lemma("part_block_len", [ids2_, cap2_, s2_, t2_, k_],
+      Imp(And(all_len_upto(ids2_, s2_, k_), k_ == Len(ids2_), cap2_ > 0, s2_ >= 0, 0 <= t2_, t2_ * cap2_ < Len(ids2_)),
+          Len(part(ids2_, cap2_, cap2_ * s2_)[t2_]) == cap2_ * s2_),
+      patterns=None, uses=["part_nth", "joinr_len", "mul_mono", "zeros_len"],
+      use_inst=[("part_nth", [ids2_, cap2_, cap2_ * s2_, z3.IntVal(0), t2_]),
+                ("joinr_len", [ids2_, s2_, Len(ids2_), t2_ * cap2_, mn(t2_ * cap2_ + cap2_, Len(ids2_))]),
+                ("mul_mono", [mn(t2_ * cap2_ + cap2_, Len(ids2_)) - t2_ * cap2_, cap2_, s2_])])
+i2_, bs2_ = z3.Ints("pp_i2 pp_bs2")
+lemma("parse_block_k", [ids2_, s2_, cap2_, bs2_, i2_, k_],
+      Imp(And(all_len_upto(ids2_, s2_, k_), nz_upto(ids2_, k_), k_ == Len(ids2_), 0 <= i2_, i2_ < Len(ids2_), cap2_ > 0, s2_ > 0, bs2_ >= cap2_ * s2_),
+          parse(blk(ids2_, cap2_, bs2_, i2_), s2_) == z3.Extract(ids2_, i2_, mn(i2_ + cap2_, Len(ids2_)) - i2_)),
+      patterns=None, uses=["parse_block"], use_inst=[("parse_block", [ids2_, s2_, cap2_, bs2_, i2_])])
+bb1_, bb2_ = z3.Consts("pp_bb1 pp_bb2", BYTES)
+s3_ = z3.Int("pp_s3")
+lemma("parse_arg_cong", [bb1_, bb2_, s2_, s3_], Imp(And(bb1_ == bb2_, s2_ == s3_), parse(bb1_, s2_) == parse(bb2_, s3_)),
+      patterns=[z3.MultiPattern(parse(bb1_, s2_), parse(bb2_, s3_))], no_auto=True, unfold_only=[])
+lemma("bitlen_pos", [x_], Imp(x_ >= 1, bitlen(x_) >= 1), patterns=None, uses=["bitlen_nonneg"], unfold_only=["bitlen"], no_auto=True)
+lemma("bl_len_nonneg", [ids2_], Len(ids2_) >= 0, patterns=None)      # (used to name a ground term whose definition is then unfolded)
+lemma("mul_div_cancel", [a_, c_], Imp(c_ > 0, (c_ * a_) / c_ == a_), patterns=None, uses=["div_mod_unique"],
+      use_inst=[("div_mod_unique", [c_ * a_, c_, a_, z3.IntVal(0)])])
+G_ARGS = "self.config.param_lambda, gK, gDB, self.config.param_B, self.config.param_b, sample0, len(edb.A)"
+TOP = "len(edb.A) - 2 - blocks_upto(gDB, kwpos(gDB, gq), self.config.param_B)"
+NBK = "cdivf(len(gDB[gq]), self.config.param_B)"
+ISZ = "(bitlen(len(edb.A) - 1) + 7) // 8"
+PL_ = "ptrl(sample0, %s, %s, %s)" % (TOP, NBK, ISZ)             # the pointer list of gq
+NPB = "(cdivf(%s, self.config.param_b) if gq in gDB else 0)" % NBK
+IDB = "self.config.param_B * self.config.param_identifier_size"
+contract(SCH + "._Search", params=dict(self=SCHT, edb=EDBT, tk=TOKT), returns=REST,
+         ghost=dict(gK=TBytes, gDB=DBT, gq=TBytes),
+         requires=VALID_CFG + ["pt_repr(dmap(edb.D), %s)" % G_ARGS,
+                               "a_inv(edb.A, sample0, len(edb.A), self.config.param_lambda, gK, gDB, len(gDB), self.config.param_B, self.config.param_identifier_size)",
+                               "is_sample(sample0, 1, len(edb.A))", "len(sample0) == len(edb.A) - 1",
+                               "len(edb.A) == blocks_upto(gDB, len(gDB), self.config.param_B) + 1",
+                               "valid_db(gDB, self.config.param_identifier_size)", "ne_db(gDB)",
+                               "tk.K1 == prf('sha1', self.config.param_lambda, gK, b'\\x01' + gq)",
+                               "tk.K2 == prf('sha1', self.config.param_lambda, gK, b'\\x02' + gq)"],
+         ensures=["result.result == (gDB[gq] if gq in gDB else [])"],
+         locals={"result": BL, "index_list": BL},
+         lemmas=["A2_prf_injective", "A6_prf_len", "dec_enc", "ptrl_len", "blocks_nonneg", "bitlen_bound", "pow2_mono", "parse_arg_cong"],
+         loops={0: dict(invariant=["c >= 0", "c <= " + NPB,
+                                   "index_list == (%s[:min(c * self.config.param_b, %s)] if gq in gDB else [])" % (PL_, NBK)],
+                        hints=[("part_nth", [PL_, "self.config.param_b", "self.config.param_b * (%s)" % ISZ, "0", "c"]),
+                               ("part_len", [PL_, "self.config.param_b", "self.config.param_b * (%s)" % ISZ, "0"]),
+                               ("parse_block_k", [PL_, ISZ, "self.config.param_b", "self.config.param_b * (%s)" % ISZ, "c * self.config.param_b", NBK]),
+                               ("ext_append", [PL_, "c * self.config.param_b", "min(c * self.config.param_b + self.config.param_b, %s) - c * self.config.param_b" % NBK]),
+                               ("mul_mono", ["c + 1", "cdivf(%s, self.config.param_b)" % NBK, "self.config.param_b"]),
+                               ("div_bounds", [NBK + " + self.config.param_b - 1", "self.config.param_b"]),
+                               ("bl_len_nonneg", ["ipay(sample0, len(edb.A), gDB, gq, self.config.param_B, self.config.param_b, %s)" % ISZ]),
+                               ("part_block_len", [PL_, "self.config.param_b", ISZ, "c", NBK]),
+                               ("bitlen_pos", ["len(edb.A) - 1"]),
+                               ("div_lower", ["len(gDB[gq]) + self.config.param_B - 1", "1", "self.config.param_B"]),
+                               ("mul_div_cancel", [ISZ, "self.config.param_b"]),
+                               ("ptrl_all_len", ["sample0", TOP, NBK, ISZ]),
+                               ("ptrl_nz", ["sample0", TOP, NBK, ISZ, "len(edb.A)"]),
+                               ("bitlen_bound", ["len(edb.A) - 1"]), ("pow2_mono", ["bitlen(len(edb.A) - 1)", "8 * (%s)" % ISZ]),
+                               ("blocks_mono2", ["gDB", "kwpos(gDB, gq) + 1", "len(gDB)", "self.config.param_B"])]),
+                1: dict(invariant=["index_list == (%s if gq in gDB else [])" % PL_,
+                                   "gq not in gDB or (%s - %s + 1 >= 0 and %s < len(sample0))" % (TOP, NBK, TOP),
+                                   "gq not in gDB or blocks_ok(edb.A, sample0, %s, tk.K2, part(gDB[gq], self.config.param_B, %s), %s)" % (TOP, IDB, NBK),
+                                   "result == (gDB[gq][:min(it * self.config.param_B, len(gDB[gq]))] if gq in gDB else [])"],
+                        hints=[("ptrl_nth", ["sample0", TOP, NBK, ISZ, "it"]),
+                               ("R1_sample_nth", ["sample0", "1", "len(edb.A)", "%s - it" % TOP]),
+                               ("b2i_i2b", ["sample0[%s - it]" % TOP, ISZ]),
+                               ("bitlen_bound", ["len(edb.A) - 1"]), ("pow2_mono", ["bitlen(len(edb.A) - 1)", "8 * (%s)" % ISZ]),
+                               ("blocks_ok_nth", ["edb.A", "sample0", TOP, "tk.K2", "part(gDB[gq], self.config.param_B, %s)" % IDB, NBK, "it"]),
+                               ("part_nth", ["gDB[gq]", "self.config.param_B", IDB, "0", "it"]),
+                               ("part_len", ["gDB[gq]", "self.config.param_B", IDB, "0"]),
+                               ("parse_block", ["gDB[gq]", "self.config.param_identifier_size", "self.config.param_B", IDB, "it * self.config.param_B"]),
+                               ("ext_append", ["gDB[gq]", "it * self.config.param_B",
+                                               "min(it * self.config.param_B + self.config.param_B, len(gDB[gq])) - it * self.config.param_B"]),
+                               ("mul_mono", ["it + 1", NBK, "self.config.param_B"]),
+                               ("div_bounds", ["len(gDB[gq]) + self.config.param_B - 1", "self.config.param_B"]),
+                               ("div_lower", ["len(gDB[gq]) + self.config.param_B - 1", "1", "self.config.param_B"]),
+                               ("blocks_mono2", ["gDB", "kwpos(gDB, gq) + 1", "len(gDB)", "self.config.param_B"])])},
+         unfold_only=["pt_repr", "pt_inv", "a_inv", "valid_db", "ne_db", "part", "is_enc", "dec", "dec_ok", "ipay", "cdivf", "blocks_upto", "kwpos"],
+         no_runtime=True, props=["C01", "C02"])
